@@ -262,6 +262,17 @@ func c02Check(ctx *vfCtx, c c02Case) {
 			ctx.Fail("C02/verifies-under-other-key", "verifies under a different public key: %q", cur)
 		}
 	}
+	// --- soundness: public keys of the wrong length are "another key": error, not a panic
+	for _, n := range []int{0, 1, 31, 33, 64} {
+		bad := make([]byte, n)
+		copy(bad, pub)
+		if e := verify("bad-key-length", name, keyID, ed25519.PublicKey(bad), cur); e == nil {
+			ctx.Fail("C02/verifies-under-other-key/wrong-length", "verifies under a %d-byte public key: %q", n, cur)
+		}
+	}
+	if ctx.Failed() {
+		return
+	}
 	// --- soundness: single-member mutation
 	if c.Mut != nil && len(c.Mut.Path) > 0 && c.Mut.Path[0] != "signatures" && c.Mut.Path[0] != "unsigned" {
 		mv, applied := c02Apply(vcur, c.Mut, 0)
